@@ -125,34 +125,40 @@ class TimeoutDriver:
         wrapped = timeout(float(self.T))(decoyed(front))
         # the wrapper object is used once before the call under test (a call that ends normally at once): nothing of
         # that first call - a timer, a result, a callback - may be left to influence the second one
-        self.warmup = "first"
-        # ... and that first call is made on ANOTHER event loop, one that stays open (a wrapper object is a module-level
-        # thing; a program may well run it on one loop and later, or meanwhile, on another): no loop may be remembered
-        elder = elder_loop()
-        first = elder.create_task(wrapped(1, k=2))
-        elder.quiesce()
-        self.warm_ok = first.done() and not first.cancelled() and first.exception() is None and first.result() == "warm"
-        first = loop.create_task(wrapped(1, k=2))
-        loop.quiesce()
-        self.warm_ok = self.warm_ok and first.done() and not first.cancelled() and first.exception() is None \
-            and first.result() == "warm"
-        # ... then a call the front rejects: the caller gets the rejection, nothing of that call stays behind either
+        if self.T == 0:
+            # a timeout of 0: every call is over the moment it is made - the uses before the call under test are left out
+            self.warmup = False
+            self.warm_ok = True
+            self.by_gate = None
+        else:
+            self.warmup = "first"
+            # ... and that first call is made on ANOTHER event loop, one that stays open (a wrapper object is a module-level
+            # thing; a program may well run it on one loop and later, or meanwhile, on another): no loop may be remembered
+            elder = elder_loop()
+            first = elder.create_task(wrapped(1, k=2))
+            elder.quiesce()
+            self.warm_ok = first.done() and not first.cancelled() and first.exception() is None and first.result() == "warm"
+            first = loop.create_task(wrapped(1, k=2))
+            loop.quiesce()
+            self.warm_ok = self.warm_ok and first.done() and not first.cancelled() and first.exception() is None \
+                and first.result() == "warm"
+            # ... then a call the front rejects: the caller gets the rejection, nothing of that call stays behind either
 
-        async def rejected():
-            try:
-                await wrapped(0, k=2)
-            except BaseException as e:  # noqa: BLE001
-                return e
+            async def rejected():
+                try:
+                    await wrapped(0, k=2)
+                except BaseException as e:  # noqa: BLE001
+                    return e
 
-        rej = loop.create_task(rejected())
-        loop.quiesce()
-        self.warm_ok = self.warm_ok and rej.done() and not rej.cancelled() and rej.result() is self.REJECT
-        # ... and a second call through the same wrapper overlaps the call under test: it starts before it and ends
-        # (normally) right after the call under test has started - two calls share nothing but the wrapped function
-        self.warmup = "bystander"
-        self.by_gate = loop.create_future()
-        bystander = loop.create_task(wrapped(1, k=2))
-        loop.quiesce()
+            rej = loop.create_task(rejected())
+            loop.quiesce()
+            self.warm_ok = self.warm_ok and rej.done() and not rej.cancelled() and rej.result() is self.REJECT
+            # ... and a second call through the same wrapper overlaps the call under test: it starts before it and ends
+            # (normally) right after the call under test has started - two calls share nothing but the wrapped function
+            self.warmup = "bystander"
+            self.by_gate = loop.create_future()
+            bystander = loop.create_task(wrapped(1, k=2))
+            loop.quiesce()
 
         async def outer():
             try:
@@ -164,10 +170,11 @@ class TimeoutDriver:
 
         self.caller = loop.create_task(outer())
         loop.quiesce()
-        self.by_gate.set_result(None)
-        loop.quiesce()
-        self.warm_ok = self.warm_ok and bystander.done() and not bystander.cancelled() \
-            and bystander.exception() is None and bystander.result() == "bystander"
+        if self.by_gate is not None:
+            self.by_gate.set_result(None)
+            loop.quiesce()
+            self.warm_ok = self.warm_ok and bystander.done() and not bystander.cancelled() \
+                and bystander.exception() is None and bystander.result() == "bystander"
         loop.quiesce()
 
     def _policy(self):
